@@ -731,3 +731,66 @@ func aliasRoots(info *types.Info, body *ast.BlockStmt, obj types.Object) []strin
 	walk(obj)
 	return roots
 }
+
+// RQ11 (C12, C13): the lexer consumes input only through the rune reader's own methods. The
+// newline accounting of rule RQ follows readRune/unreadRune; an assignment to the reader's
+// position from anywhere else (skipping ahead with bytes.Index, say) consumes bytes — and the
+// newlines among them — behind its back, so later positions are computed against a line table
+// that misses lines. Who-may-write: runeReader.pos (and mark) are assigned only in methods of
+// runeReader.
+func rq11ReaderPositionOwner(w *World) {
+	w.rule("RQ11")
+	p := w.pkg("parser")
+	rr := w.typ("parser", "runeReader")
+	if p == nil || rr == nil {
+		return
+	}
+	info := p.TypesInfo
+	st, ok := rr.Underlying().(*types.Struct)
+	if !ok {
+		return
+	}
+	fields := map[*types.Var]bool{}
+	for i := 0; i < st.NumFields(); i++ {
+		if bt, ok := st.Field(i).Type().Underlying().(*types.Basic); ok && bt.Info()&types.IsInteger != 0 {
+			fields[st.Field(i)] = true // pos, mark
+		}
+	}
+	n, bad := 0, 0
+	for _, b := range allFuncBodies(p) {
+		if b.Lit != nil {
+			continue
+		}
+		owner := false
+		if b.Decl.Recv != nil && len(b.Decl.Recv.List) == 1 {
+			t := info.TypeOf(b.Decl.Recv.List[0].Type)
+			if pt, ok := t.(*types.Pointer); ok {
+				t = pt.Elem()
+			}
+			owner = t != nil && types.Identical(t, rr)
+		}
+		ast.Inspect(b.Body, func(x ast.Node) bool {
+			var lhs []ast.Expr
+			switch s := x.(type) {
+			case *ast.AssignStmt:
+				lhs = s.Lhs
+			case *ast.IncDecStmt:
+				lhs = []ast.Expr{s.X}
+			}
+			for _, l := range lhs {
+				if v := selField(info, l); v != nil && fields[v] {
+					n++
+					if !owner {
+						bad++
+						w.violation("reader-position-owner|"+b.Label+"|"+types.ExprString(l), l.Pos(), "runeReader."+v.Name()+" is assigned outside the rune reader's own methods: input is consumed without passing through readRune, so the newlines in the skipped bytes never reach the line table (and rule RQ's per-read accounting does not see them)")
+					}
+				}
+			}
+			return true
+		})
+	}
+	w.floor("assignments to the rune reader's position fields", n, 3)
+	if bad == 0 {
+		w.ok("reader-position-owner", rr.Obj().Pos(), fmt.Sprintf("all %d assignments to the reader's position fields are in runeReader's own methods", n))
+	}
+}
